@@ -508,7 +508,9 @@ func readString(dst, b []byte) ([]byte, []byte, error) {
 	var n uint64
 
 	if len(b) == 0 {
-		return b, dst, errors.New("no bytes left reading a string. Malformed data?")
+		// Cut short, like a string whose bytes run out: the caller decides
+		// whether more are coming (CONTINUATION) or the block is malformed.
+		return b, dst, ErrUnexpectedSize
 	}
 
 	mustDecode := b[0]&128 == 128 // huffman encoded
